@@ -8,7 +8,7 @@ from .common import ScriptedApp, build_request, token_body
 
 PROPERTY = "C12"
 LEVEL = "exploration"
-BUDGET = {"quick": 40, "thorough": 600}
+BUDGET = {"quick": 60, "thorough": 600}
 EVIDENCE = {
     "rule": "one producing application (generator or write()) with 2-40 writes of sizes below/at/above the mark, "
             "outbuf_high_watermark in {0,1,50,1000}, send_bytes in {1,9,1000}, socket buffer 40..65536, drain pattern "
